@@ -472,22 +472,16 @@ func runC14(c *Ctx) {
 				if !ok || !lk.CommaOk || lk.X.Type().String() != "map[string]string" {
 					continue
 				}
-				for _, r := range *lk.Referrers() {
-					if ex, ok := r.(*ssa.Extract); ok && ex.Index == 1 {
-						for _, rr := range *ex.Referrers() {
-							if iff, ok := rr.(*ssa.If); ok {
-								found, notFound := iff.Block().Succs[0], iff.Block().Succs[1]
-								if okR, _ := allPathsReturnNonNil(found, map[*ssa.BasicBlock]bool{}); okR {
-									// the insert is on the other edge with the same key
-									sk := newSym(L, map[string]bool{})
-									sk.maxD = 0
-									want := strings.Join(sk.eval(lk.Index), "|")
-									for _, in2 := range notFound.Instrs {
-										if mu, ok := in2.(*ssa.MapUpdate); ok && strings.Join(sk.eval(mu.Key), "|") == want {
-											okDup = true
-										}
-									}
-								}
+				for _, t := range okTestsOf(lk) {
+					found, notFound := t.found, t.notFound
+					if okR, _ := allPathsReturnNonNil(found, map[*ssa.BasicBlock]bool{}); okR {
+						// the insert is on the other edge with the same key
+						sk := newSym(L, map[string]bool{})
+						sk.maxD = 0
+						want := strings.Join(sk.eval(lk.Index), "|")
+						for _, in2 := range notFound.Instrs {
+							if mu, ok := in2.(*ssa.MapUpdate); ok && strings.Join(sk.eval(mu.Key), "|") == want {
+								okDup = true
 							}
 						}
 					}
